@@ -241,6 +241,37 @@ def prop_reader(case, rec):
         rec.cls('reread_under_second_encoding')
 
 
+# ---------------------------------------------------------------- scale: lists of several hundred thousand lines
+def prop_reader_long(case, rec):
+    """What a real leak looks like to the reader: `n` ordinary passwords first, and only then lines that must be skipped
+    (undecodable bytes, a tab, a blank line, a bad $HEX[]) among more ordinary ones - plain and with count prefixes."""
+    n, enc = case['n'], 'utf-8'
+    words = [('pass%dword' % i).encode() for i in range(40)]
+    tail = [b'caf\xe9 2019', b'ok1234', b'\xff\xfepass', b'ta\tb', b'', b'$HEX[zz]', b'$HEX[636166e9]', b'last1']
+    path = os.path.join(_dir(), 'long.txt')
+    for mode in ('plain', 'prefix'):
+        if mode == 'plain':
+            data = b''.join(words[i % 40] + b'\n' for i in range(n)) + b''.join(t + b'\n' for t in tail)
+        else:
+            data = b''.join(b'%7d ' % (n // 40) + w + b'\n' for w in words) + b''.join(b'      2 ' + t + b'\n' for t in tail)
+        with open(path, 'wb') as f:
+            f.write(data)
+        got = guard(case, real_read, path, enc, mode == 'prefix')
+        want = reference_read(data, enc, mode == 'prefix')
+        rec.case({'mode': mode, 'ordinary_passwords_before_the_first_bad_line': n}, True, ['long_list_' + mode], key=['long', n, mode])
+        if got[0] != want[0]:
+            k = next((i for i, (a, b) in enumerate(zip(got[0], want[0])) if a != b), min(len(got[0]), len(want[0])))
+            raise Violation('reader_sequence', f'{mode} list of {n} ordinary passwords followed by lines to skip: passwords yielded differ from the reference reader at #{k}: '
+                            f'got {got[0][k:k + 3]!r}, expected {want[0][k:k + 3]!r} ({len(got[0])} vs {len(want[0])} passwords)', case)
+        if got[1:] != want[1:]:
+            raise Violation('reader_num_passwords', f'{mode} list of {n}: (num_passwords, num_encoding_errors) {got[1:]} != {want[1:]}', case)
+
+
+def run_reader_long(rec, seed, shard, nshards, tier):
+    for n in {'quick': [300000], 'thorough': [300000, 1200000]}[tier]:
+        prop_reader_long({'n': n}, rec)
+
+
 def run_reader(rec, seed, shard, nshards, tier):
     n = {'quick': 400, 'thorough': 15000}[tier]
     core.hyp_run(rec, prop_reader, file_cases(), n, seed)
@@ -492,6 +523,7 @@ def run_fuzz(rec, seed, shard, nshards, tier):
 
 
 PARTS = [
+    Part('reader_long_list', run_reader_long, prop_reader_long, {'quick': 1, 'thorough': 1}),
     Part('atheris_fuzz', run_fuzz, prop_fuzz_replay, {'quick': 0, 'thorough': 2}),
     Part('regression_f19', run_regress, prop_meta, {'quick': 1, 'thorough': 1}),
     Part('reader_vs_reference', run_reader, prop_reader, {'quick': 8, 'thorough': 16}),
